@@ -1,6 +1,180 @@
 import OtelVerif.Common.Line
 import OtelVerif.Model.C16
-/-! driver for C16 (stub) -/
-def main : IO UInt32 := do
-  IO.eprintln "drv_c16: not built yet"
-  return 2
+/-!
+driver for C16 (model `c16`).
+
+Per request the compression library is instantiated by its *identity-law view*: `enc plain` is an opaque token
+of the wire length the implementation showed (`wire=`), `dec` of the intact token is `plain` (the law — the
+differential then checks the real library against it), and `dec` of anything else (a stream cut by the wire-side
+limit, a hostile stream) is what the implementation showed (`dec=`), because only the library knows it.
+Everything else — header, dispatch, rejection, both limits, what the handler reads — is predicted by
+`clientSend`/`serve` of `Model/C16.lean`.
+-/
+open OtelVerif OtelVerif.Line OtelVerif.C16
+
+namespace OtelVerif.Drivers.C16
+
+def lcgBytes (n : Nat) (seed : UInt64) : Bytes :=
+  let rec go : Nat → UInt64 → List UInt8 → List UInt8
+    | 0, _, acc => acc.reverse
+    | k + 1, x, acc =>
+      let x' := x * 6364136223846793005 + 1442695040888963407
+      go k x' ((x' >>> 56).toUInt8 :: acc)
+  go n seed []
+
+/-- bodies shared with the Go harness (`c16Body.bytes`) -/
+def mkBody (d : String) : Option Bytes :=
+  match d.splitOn ":" with
+  | ["z", n] => n.toNat?.map (fun n => List.replicate n 0)
+  | ["t", n] => n.toNat?.map (fun n => (List.range n).map (fun i => UInt8.ofNat (97 + (i * 7 + i / 13) % 23)))
+  | ["r", n, seed] =>
+    match n.toNat?, seed.toNat? with
+    | some n, some s => some (lcgBytes n (UInt64.ofNat s))
+    | _, _ => none
+  | ["x", h] => (unhexBytes h).map (fun bs => bs.map UInt8.ofNat)
+  | _ => none
+
+def fnv (b : Bytes) : UInt64 :=
+  b.foldl (fun h c => (h ^^^ c.toUInt64) * 1099511628211) 14695981039346656037
+
+inductive DecIn
+  | missing
+  | fail
+  | got (n : Nat) (ok : Bool)
+
+def parseDec (toks : List String) : Option DecIn :=
+  match kv toks "dec" with
+  | none => some .missing
+  | some "fail" => some .fail
+  | some s =>
+    match s.splitOn ":" with
+    | [n, ok] =>
+      match n.toNat?, ok with
+      | some n, "1" => some (.got n true)
+      | some n, "0" => some (.got n false)
+      | _, _ => none
+    | _ => none
+
+def parseAlgos (s : String) : Option (Option (List String)) :=
+  if s = "nil" then some none
+  else if s = "empty" then some (some [])
+  else ((s.splitOn ",").mapM unhex).map some
+
+structure ReqInfo where
+  sent : Option Bytes
+  wireLen : Nat
+  hashed : Bool
+  plainLen : Nat
+  plain : Bytes
+
+structure S where
+  cfg : Cfg := ⟨[], 0⟩
+  ct : String := ""
+  clientOk : Bool := false
+  cur : Option ReqInfo := none
+  implEnc : String := ""
+  implWire : Nat := 0
+  fails : List String := []   -- reversed
+
+def showOutcome (hashed : Bool) : Outcome → String
+  | .rejected st => s!"obs rejected {st}"
+  | .panicked => "obs panicked"
+  | .handled s => s!"obs handled n={s.data.length} h={if hashed then toString (fnv s.data).toNat else "-"} ok={if s.ok then 1 else 0}"
+
+/-- a stream consistent with an observation `(n, h, ok)` of the handler, relative to the body `b` the client was given -/
+def streamOfObs (b : Bytes) (n : Nat) (h : Option UInt64) (ok : Bool) : Stream :=
+  match h with
+  | none => ⟨List.replicate n 0, ok⟩
+  | some h =>
+    if n ≤ b.length && fnv (b.take n) == h then ⟨b.take n, ok⟩
+    else
+      -- same length, different content (content differs from every prefix of `b`)
+      match b.take n with
+      | [] => ⟨List.replicate n 1, ok⟩
+      | x :: rest => ⟨(x + 1) :: (rest ++ List.replicate (n - (rest.length + 1)) 0), ok⟩
+
+def handler : Handler S where
+  init := {}
+  onOp := fun s toks =>
+    match toks with
+    | "cfg" :: rest =>
+      match (kv rest "algos").bind parseAlgos, kvInt rest "max", (kv rest "ct").bind unhex with
+      | some algos, some mx, some ct =>
+        let cfg := (ServerConfig.mk algos mx).eff
+        -- ToClient fails iff a compressed type has no writer
+        let ok := !isCompressed ct || (assoc Gen.Compression.writers ct).isSome
+        ({ s with cfg := cfg, ct := ct, clientOk := ok }, [if ok then "obs cfg client=ok" else "obs cfg client=err"])
+      | _, _, _ => (s, ["obs bad-op"])
+    | "req" :: rest =>
+      match kv rest "mode", (kv rest "hdr").bind unhex, (kv rest "body").bind mkBody, kvNat rest "wire", parseDec rest with
+      | some mode, some hdr, some b, some wire, some decIn =>
+        if mode ≠ "client" ∧ mode ≠ "pre" ∧ mode ≠ "garbage" then (s, ["obs bad-op"]) else
+        let token : Bytes := List.replicate wire 0xAA
+        let garbage := mode == "garbage"
+        let decOther : Option Stream :=
+          match decIn with
+          | .got n ok => some ⟨if garbage then List.replicate n 0 else b.take n, ok⟩
+          | _ => none
+        let codec : String → Codec := fun _ =>
+          { enc := fun _ => token,
+            dec := fun st => if !garbage && st == ⟨token, true⟩ then some ⟨b, true⟩ else decOther }
+        let given := if mode == "pre" then token else b
+        match clientSend codec s.ct hdr given with
+        | none => (s, ["obs bad-op client-unavailable"])
+        | some rq =>
+          let needDec : Bool := rq.encoding != "" && (garbage || decide (s.cfg.limit < rq.wire.data.length))
+          let haveDec := match decIn with | .missing => false | _ => true
+          -- the library-only input must be present exactly when the model needs it and the decoder is reached
+          let out := serve codec s.cfg rq
+          let reached := match assoc (buildEnabled s.cfg.enabled) rq.encoding with
+            | some (.lib _) => true
+            | _ => false
+          if needDec && reached && !haveDec then (s, ["obs bad-op dec-input-missing"]) else
+          let info : ReqInfo := { sent := if garbage then none else some b, wireLen := rq.wire.data.length,
+                                  hashed := !garbage, plainLen := b.length, plain := b }
+          ({ s with cur := some info },
+           [s!"obs sent enc={hex rq.encoding} n={if rq.encoding = "" then 0 else 1} wire={rq.wire.data.length}", showOutcome (!garbage) out])
+      | _, _, _, _, _ => (s, ["obs bad-op"])
+    | _ => (s, ["obs bad-op"])
+  onObs := fun s toks =>
+    match toks with
+    | _ :: "sent" :: rest =>
+      match (kv rest "enc").bind unhex, kvNat rest "wire" with
+      | some e, some w => { s with implEnc := e, implWire := w }
+      | _, _ => { s with fails := "sig=C16/harness/unparsable-sent" :: s.fails }
+    | _ :: "cfg" :: _ => s
+    | _ :: kind :: rest =>
+      match s.cur with
+      | none => { s with fails := "sig=C16/harness/outcome-without-request" :: s.fails }
+      | some info =>
+        let outcome : Option Outcome :=
+          match kind, rest with
+          | "rejected", [st] => st.toNat?.map Outcome.rejected
+          | "panicked", [] => some .panicked
+          | "handled", _ =>
+            match kvNat rest "n", kv rest "h", kv rest "ok" with
+            | some n, some h, some ok =>
+              let hv : Option UInt64 := if h = "-" then none else h.toNat?.map UInt64.ofNat
+              some (.handled (streamOfObs info.plain n (if info.hashed then hv else none) (ok == "1")))
+            | _, _, _ => none
+          | _, _ => none
+        match outcome with
+        | none => { s with cur := none, fails := s!"sig=C16/harness/no-outcome {kind}" :: s.fails }
+        | some o =>
+          let x : Exchange := { enabled := s.cfg.enabled, limit := s.cfg.limit, encoding := s.implEnc,
+                                sent := info.sent, wireLen := s.implWire, outcome := o }
+          match exchangeCheck x with
+          | none => { s with cur := none }
+          | some sig =>
+            { s with cur := none,
+                     fails := s!"sig={sig} enabled={s.cfg.enabled} limit={s.cfg.limit} encoding={s.implEnc.quote} body={info.plainLen} wire={s.implWire} saw={" ".intercalate (kind :: rest)}" :: s.fails }
+    | _ => s
+  onEnd := fun s =>
+    match s.fails.reverse with
+    | [] => ["prop exchange=ok"]
+    | fs => fs.map (fun f => s!"prop exchange=FAIL {f}")
+
+end OtelVerif.Drivers.C16
+
+def main : IO UInt32 :=
+  runMulti [("c16", run OtelVerif.Drivers.C16.handler)]
